@@ -151,6 +151,7 @@ def c04(ctx):
     ctx.run.notes.append('termination on out-degree-1 chains depends on the generated graph (C03) and is not decided')
     graph.r_shift(ctx)           # the cascade that guarantees 'no missing out-degree' enumerates predecessors
     walk.r_raise(ctx, ('encode',))
+    walk.r_ahead(ctx)            # encode is total: the look-ahead on the message cursor never leaves the message
     graph2.r_arc(ctx, [SW + 'connect_coding_graph'], floor=3)     # the returned vertex list is not stale
     misc2.r_conv(ctx)           # encode is total for every message: bit_to_number at any length, the empty message included
 
